@@ -438,6 +438,23 @@ func c28(c *hx.Ctx) {
 					c.Failf("c28-sent-to-non-subscriber", desc, "publish %d: sent to %d which does not subscribe", i, e[1])
 				}
 			}
+			// general graphs: a holder other than the origin leaves out exactly its previous hop
+			// (which wrote to it); if it left out nobody, its previous hop must be the origin
+			adj := m.adj()
+			for u := 0; u < m.n; u++ {
+				if u == origin || !reach[u] || m.handed[i][u] == 0 {
+					continue
+				}
+				missing := 0
+				for _, v := range adj[u] {
+					if v != origin && m.isSub(v, ch) && dir[[2]int{u, v}] == 0 {
+						missing++
+					}
+				}
+				if missing == 0 && dir[[2]int{origin, u}] == 0 {
+					c.Failf("c28-echo-prevhop", desc, "publish %d: node %d wrote the message to every announced neighbour, including the one it got it from", i, u)
+				}
+			}
 			if m.acyclic() {
 				for k, v := range dir {
 					if v > 0 && dir[[2]int{k[1], k[0]}] > 0 {
